@@ -310,7 +310,7 @@ TExit ==
                 \cup (IF E.mc = "stuck" THEN {V("C06", "build ended with 'stuck'", "")} ELSE {})
          v16 == IF \E i \in iv.doneOK : St(g, i).rsp /\ Exists(T, St(g, i).rsppath)
                 THEN {V("C16", "response file not removed after the command succeeded", "")}
-                ELSE IF \E i \in iv.failed : St(g, i).rsp /\ ~Exists(T, St(g, i).rsppath)
+                ELSE IF \E i \in iv.failed : St(g, i).rsp /\ St(g, i).rsppath # "" /\ ~Exists(T, St(g, i).rsppath)
                 THEN {V("C16", "response file of a failed command was removed", "")} ELSE {}
          v20 == (IF ok /\ ~iv.dry /\ (iv.cnt.fin # iv.cnt.tot \/ iv.cnt.st # iv.cnt.tot) /\ E.mc = "ok"
                  THEN {V("C20", "after a successful build finished/started differ from the total", "")} ELSE {})
